@@ -157,6 +157,41 @@ let handle (f : Stdlib.String.t array) : Stdlib.String.t =
        if not (List.exists (fun (k, _) -> k = dec_str f.(2)) r.vf_info) then "ok\t" ^ enc_lines (dec_lines f.(1))
        else show_lines (vf_write_gen true env0 (fun _ -> false) None (vf_remove_flavor (dec_str f.(2)) r))
      | Err k -> "err\t" ^ err_name k)
+  | "dbassign" ->
+    (* Database.assignTag(tag, name, version, flavors): name, tag, version, flavors (~ for None, a comma
+       list otherwise), text of the version file (~: no file), text of the chain file (~: no file) *)
+    let req = if f.(4) = "~" then None else Some (List.map dec_str (split_sep ',' f.(4))) in
+    let opt s = if s = "~" then None else Some (dec_lines s) in
+    show_lines (db_assign_tag (dec_str "W") (dec_str "T") (dec_str f.(1)) (dec_str f.(2)) (dec_str f.(3)) req
+                  (opt f.(5)) (opt f.(6)))
+  | "cfops" ->
+    (* ChainFile(file, name, tag) ; setVersion / removeVersion with a list, a string or None ; write.
+       ops: set,version,flavors | rm,flavors  with flavors = ~ (None) or a semicolon list *)
+    let start = if f.(3) = "~" then Ok { cf_name = dec_val f.(1); cf_tag = dec_val f.(2); cf_info = [] }
+      else cf_read (dec_val f.(1)) (dec_val f.(2)) (dec_lines f.(3)) in
+    let fls s = if s = "~" then None else Some (List.map dec_str (split_sep ';' s)) in
+    let step r op = match r with
+      | Err k -> Err k
+      | Ok c -> (match Stdlib.String.split_on_char ',' op with
+          | ["set"; v; l] -> cf_set_versions_opt (dec_str "W") (dec_str "T") (dec_str v) (fls l) c
+          | ["rm"; l] -> Ok (cf_remove_versions_opt (fls l) c)
+          | _ -> failwith "bad chain op") in
+    (match List.fold_left step start (split_sep '|' f.(4)) with
+     | Ok c -> show_lines (cf_lines c)
+     | Err k -> "err\t" ^ err_name k)
+  | "findseq" ->
+    (* several Database.findProduct in one process: listing, root, links, number of texts, then
+       (name, version, text) per text, then the queries name,version,flavor;... *)
+    let pe = env_at f 3 in
+    let n = int_of_string f.(4) in
+    let texts = List.init n (fun i -> ((dec_str f.(5 + 3 * i), dec_str f.(6 + 3 * i)), dec_lines f.(7 + 3 * i))) in
+    let qs = List.map (fun q -> match Stdlib.String.split_on_char ',' q with
+        | [a; b; c] -> ((dec_str a, dec_str b), dec_str c)
+        | _ -> failwith "bad query") (split_sep ';' f.(5 + 3 * n)) in
+    Stdlib.String.concat "|" (List.map (fun r -> match r with
+        | Ok (Some p) -> "ok:" ^ enc_product p
+        | Ok None -> "none"
+        | Err k -> "err:" ^ err_name k) (db_find_seq (ex_in pe f.(1)) (dec_str f.(2)) texts qs))
   | "realpath" -> "ok\t" ^ enc_str (realpath (dec_env f.(1)).pe_links (dec_str f.(2)))
   | "vfclass" -> show_class (vf_classify (dec_str f.(1)))
   | "cfclass" -> show_class (cf_classify (dec_str f.(1)))
